@@ -28,8 +28,7 @@
        scattering matrix does not exist ... it is skipped").
 
    Laws checked in the specification (over exact rationals) for every case
-     ZeroForEmpty, AdditiveOverNuclides, Homogeneous (k x comp), AdditiveOverCompositions (comp + d for every d of the
-     pair domain), MissingZeroIsHarmless, and DerivedCommute: absorption / totalScatter / removal computed from the
+     ZeroForEmpty, AdditiveOverNuclides, Homogeneous (k x comp), AdditiveOverCompositions (comp + d for every d of PairSet), MissingZeroIsHarmless, and DerivedCommute: absorption / totalScatter / removal computed from the
      macroscopic parts equal the density-weighted sums of the same quantities computed per nuclide.
    Interpretation: "zero for an empty composition" = the zero vector of the group count (not None, not an exception).
 *)
@@ -39,7 +38,7 @@ CONSTANTS NG,        \* neutron groups
           NGam,      \* gamma groups
           Variants,  \* set of table variants
           DensSeq,   \* sequence of densities (rationals <<num, den>>) a composition may use
-          PairDens   \* densities of the second operand in AdditiveOverCompositions
+          PairSet    \* the second operands d of AdditiveOverCompositions (a set of compositions)
 NNuc == 4
 Nuc  == 1..NNuc
 Sfxs == {"AA", "AB"}
@@ -95,7 +94,6 @@ Diag(a)       == [f \in Grp |-> a[f][f]]
 (* ---------- compositions ---------- *)
 Dens   == {DensSeq[i] : i \in 1..Len(DensSeq)}
 Comps  == [Nuc -> Dens]
-PairComps == [Nuc -> {PairDens[i] : i \in 1..Len(PairDens)}]     \* the second operands of AdditiveOverCompositions
 CZero  == [n \in Nuc |-> RZero]
 CScale(k, c) == [n \in Nuc |-> RMul(k, c[n])]
 CPlus(c, d)  == [n \in Nuc |-> RAdd(c[n], d[n])]
@@ -173,7 +171,7 @@ AdditiveOverNuclides == Complete =>
 Homogeneous == Complete =>
     LET H == Here IN \A k \in {RFrac(1, 2), RInt(2), RInt(3), RFrac(2, 3)} : AllOf(V, CScale(k, C), S) = AllScale(k, H)
 AdditiveOverCompositions == Complete =>
-    LET H == Here IN \A d \in PairComps : AllOf(V, CPlus(C, d), S) = AllPlus(H, AllOf(V, d, S))
+    LET H == Here IN \A d \in PairSet : AllOf(V, CPlus(C, d), S) = AllPlus(H, AllOf(V, d, S))
 \* a nuclide the library does not hold matters only through the refusal
 MissingZeroIsHarmless == Complete => Here = AllOf(V, [n \in Nuc |-> IF InLib(n, S) THEN C[n] ELSE RZero], S)
 \* derived quantities commute with the weighted sum
